@@ -126,11 +126,14 @@ def build_impl(cfg="dbg"):
     os.makedirs(CACHE, exist_ok=True)
     bdir = os.path.join(CACHE, "%s-%s" % (cfg, th))
     with Lock(os.path.join(CACHE, "lock-" + cfg)):
-        # drop stale caches of this configuration
-        for d in os.listdir(CACHE):
-            if d.startswith(cfg + "-") and d != os.path.basename(bdir):
-                shutil.rmtree(os.path.join(CACHE, d), ignore_errors=True)
+        # drop stale caches of this configuration: the three most recently used trees are kept (a check of a
+        # scratch worktree, VERIF_REPO, may run next to a check of /repo)
+        others = [d for d in os.listdir(CACHE) if d.startswith(cfg + "-") and d != os.path.basename(bdir)]
+        others.sort(key=lambda d: os.path.getmtime(os.path.join(CACHE, d)), reverse=True)
+        for d in others[2:]:
+            shutil.rmtree(os.path.join(CACHE, d), ignore_errors=True)
         if os.path.exists(os.path.join(bdir, ".built")):
+            os.utime(bdir, None)
             return bdir
         shutil.rmtree(bdir, ignore_errors=True)
         os.makedirs(bdir)
